@@ -22,6 +22,7 @@ for a in ("prop", "slug", "patch", "demo", "place", "pkg", "needs"):
 ap.add_argument("--run", default=".")
 ap.add_argument("--notes", default=None)
 ap.add_argument("--skip-suite", action="store_true")
+ap.add_argument("--race", action="store_true", help="run the demo under the Go race detector")
 ap.add_argument("--repeat", type=int, default=1, help="run the demo up to N times with the patch (fails if any run fails)")
 a = ap.parse_args()
 wt = "/var/tmp/wt-confirm-%d" % os.getpid()
@@ -72,7 +73,7 @@ try:
         shutil.copyfile(a.demo, place)
         failed_with = False
         for i in range(a.repeat):
-            rc, out = run(ns("go test -vet=off -count=1 -run \"%s\" %s" % (a.run, a.pkg)))
+            rc, out = run(ns("%sgo test %s-vet=off -count=1 -run \"%s\" %s" % ("CGO_ENABLED=1 " if a.race else "", "-race " if a.race else "", a.run, a.pkg)))
             if rc != 0:
                 failed_with = True
                 log.append("demo WITH patch (run %d): rc=%d (fails, as required)\n%s" % (i + 1, rc, out.strip()[-1200:]))
@@ -84,7 +85,7 @@ try:
         os.remove(place)
         run(["git", "checkout", "--", "."])
         shutil.copyfile(a.demo, place)
-        rc, out = run(ns("go test -vet=off -count=1 -run \"%s\" %s" % (a.run, a.pkg)))
+        rc, out = run(ns("%sgo test %s-vet=off -count=1 -run \"%s\" %s" % ("CGO_ENABLED=1 " if a.race else "", "-race " if a.race else "", a.run, a.pkg)))
         log.append("demo WITHOUT patch: rc=%d (must be 0)\n%s" % (rc, out.strip()[-600:]))
         if rc != 0:
             ok = False
@@ -104,7 +105,7 @@ if ok:
         "origin": "independent sub-agent given only the property text and a scratch worktree",
         "needs": a.needs,
         "demo": {"file": os.path.basename(a.place), "place_at": a.place,
-                 "run": "go test -mod=mod -vet=off -count=1 -run '%s' %s" % (a.run, a.pkg)},
+                 "run": "go test %s-mod=mod -vet=off -count=1 -run '%s' %s" % ("-race " if a.race else "", a.run, a.pkg)},
         "ran": "tools/confirm_seed.py (scratch worktree of /repo HEAD %s): patch applies, build + full existing suite pass with it, demo fails with it, demo passes without it; see confirm.txt" % head[:10],
     }, open(os.path.join(d, "meta.json"), "w"), indent=1)
     print("CONFIRMED ->", d)
